@@ -219,6 +219,7 @@ theorem Qn_or_single (n x : Nat) (hx : x < n) (F : (Nat → Bool) → Bool) (v :
 theorem exists_and_spec (L R : Arr) (n x : Nat) (hL : WFo L n) (hR : WFo R n) (hx : x < n) :
     WFo (binaryOpWithExists L R Gen.and_ [x]) n ∧
     x ∉ supportSet (binaryOpWithExists L R Gen.and_ [x]) ∧
+    (2 ≤ (binaryOpWithExists L R Gen.and_ [x]).size → Red (binaryOpWithExists L R Gen.and_ [x]) n) ∧
     ∀ v, evalArr (binaryOpWithExists L R Gen.and_ [x]) v =
       ((evalArr L (upd v x false) && evalArr R (upd v x false)) ||
        (evalArr L (upd v x true) && evalArr R (upd v x true))) := by
@@ -237,13 +238,27 @@ theorem exists_and_spec (L R : Arr) (n x : Nat) (hL : WFo L n) (hR : WFo R n) (h
     fun v w h => hQ v w (fun i _ hi => h i hi)
   obtain ⟨hw, hden⟩ := canon_wfo n _ hdep
   rw [heq]
-  refine ⟨hw, ?_, ?_⟩
+  refine ⟨hw, ?_, red_canon n _ hdep, ?_⟩
   · apply canon_no_var n x _ hdep
     intro v b
     rw [Qn_or_single n x hx, Qn_or_single n x hx, upd_upd, upd_upd]
   · intro v
     rw [evalArr_of_wf hw, hden v, Qn_or_single n x hx]
     simp only [evalArr_of_wf hL, evalArr_of_wf hR]
+
+/-- the same result as an array: the canonical array of `∃ x. L ∧ R` -/
+theorem exists_and_canon (L R : Arr) (n x : Nat) (hL : WFo L n) (hR : WFo R n) (hx : x < n) :
+    binaryOpWithExists L R Gen.and_ [x] = canon n (fun v =>
+      ((evalArr L (upd v x false) && evalArr R (upd v x false)) ||
+       (evalArr L (upd v x true) && evalArr R (upd v x true)))) := by
+  have heq : binaryOpWithExists L R Gen.and_ [x] = _ :=
+    nestedApply_eq_canon L R n (trigOfList [x]) Gen.and_ Gen.or_ (fun a b => a && b) (fun a b => a || b)
+      hL hR and_consistent or_consistent (by intro a; cases a <;> rfl)
+  rw [heq]
+  apply canon_congr
+  intro v
+  rw [Qn_or_single n x hx]
+  simp only [evalArr_of_wf hL, evalArr_of_wf hR]
 
 theorem subst_bool (fa : Bool → Bool) (gv : Bool) :
     ((fa false && (false == gv)) || (fa true && (true == gv))) = fa gv := by
